@@ -36,6 +36,7 @@
     filler_confined_partial filler_confined_stream_partial filler_input_confined filler_option_confined
     filler_fills_textarea filler_nested_form_unfilled
     buffer_feedback_diverges buffer_two_writers_ill_nested
+    lazy_agrees_stagewise lazy_chain_wellnested
     apply_leaves_origin apply_appends_one_link history_keeps_chains
 -/
 import Genshi.Lemmas.TfSegs2
@@ -43,6 +44,7 @@ import Genshi.Lemmas.TfChains
 import Genshi.Lemmas.TfFill
 import Genshi.Lemmas.TfFillSpec
 import Genshi.Lemmas.TfLazyDiv
+import Genshi.Lemmas.TfLazyAgree
 namespace Genshi.Props.C20
 open Genshi Genshi.Tf
 
@@ -388,6 +390,47 @@ example : history [[0]] [(0, 1), (0, 2), (1, 3)] =
     [[[0], [0, 1]], [[0], [0, 1], [0, 2]], [[0], [0, 1], [0, 2], [0, 1, 3]]] := by decide
 
 /-! ## the chain as the code runs it: lazily interleaved links (`Model/TfLazy.lean`) -/
+
+/-- The lazily evaluated chain (`runLazy`: every link a transducer, items pushed through the links
+    one at a time, buffers shared and injected from their live content) gives exactly what the
+    stage-wise reading `runChain` gives — the same marked stream, the same buffers, failure exactly
+    when it fails, for every fuel `F` — for EVERY chain in which, between two `buffer()` barriers,
+    no buffer is written twice or read by an injector and written (`stagewise`; the driver decides
+    it per chain).  So every theorem about `runChain` / `transform` above is a theorem about the chain
+    as the code runs it; the two findings below are exactly the two ways to leave `stagewise`. -/
+theorem lazy_agrees_stagewise (F : Nat) (ops : List Op) (b : Bufs) (s : MStream)
+    (h : stagewise [] [] ops = true) :
+    (runLazy F ops (ofBufs b) s).toOption = (runChain ops b s).map fun r => (r.1, ofBufs r.2) :=
+  lazy_agrees F ops b s h
+
+/-- `chain_wellnested` for the chain as the code runs it. -/
+theorem lazy_chain_wellnested (F : Nat) (ops : List Op) (s : Stream) (hs : WellNested s)
+    (hst : stagewise [] [] ops = true) (hadm : Admissible true ops)
+    (hsel : chainSelOk ops [] (markAll s) = true) (out : MStream) (b : BufF)
+    (h : runLazy F ops (fun _ => []) (markAll s) = .ok (out, b)) : WellNested (unmark out) := by
+  have h0 : ofBufs [] = fun _ => [] := by funext i; simp [ofBufs, Bufs.get]
+  have := lazy_agrees F ops [] (markAll s) hst
+  rw [h0, h] at this
+  simp only [Out.toOption, liftRes] at this
+  cases hr : runChain ops [] (markAll s) with
+  | none => simp [hr] at this
+  | some r =>
+    simp only [hr, Option.map_some, Option.some.injEq, Prod.mk.injEq] at this
+    exact chain_wellnested ops s hs hadm hsel (unmark out) (by simp [transform, transformMarked, hr, this.1])
+
+/-- non-vacuity: the cut / barrier / append chain of the example above is `stagewise`, and the lazy
+    model runs it to the same output -/
+example :
+    stagewise [] [] [.select [.none, .none, .hit, .none], .cut 0 false, .endSel, .buffer,
+      .select [.none, .hit, .none, .none], .append (.buf 0)] = true ∧
+    (match runLazy 0 [.select [.none, .none, .hit, .none], .cut 0 false, .endSel, .buffer,
+        .select [.none, .hit, .none, .none], .append (.buf 0)] (fun _ => [])
+        (markAll [.start (qn 'r') [], .start (qn 'a') [], .end_ (qn 'a'), .start (qn 'b') [], .end_ (qn 'b'),
+          .end_ (qn 'r')]) with
+      | .ok (o, _) => some (unmark o)
+      | _ => none) =
+    some [.start (qn 'r') [], .start (qn 'a') [], .start (qn 'b') [], .end_ (qn 'b'), .end_ (qn 'a'),
+      .end_ (qn 'r')] := by decide
 
 /-- Known finding C20-buffer-feedback: `Transformer('a').copy(b).append(b).copy(b, accumulate=True)` on
     `<r><a/></r>` does not terminate — for EVERY fuel the lazy model runs out of it: `append(b)`
